@@ -1058,7 +1058,7 @@ def run_impl(case):
         return kw
 
     def draw(layer_portrayal=None):
-        if variant.get("raise_first") and shadow:
+        if variant.get("raise_first") and shadow and hook[0] is None:
             # a draw abandoned half-way (user code raises) must leave nothing behind for the next one
             calls = []
 
